@@ -23,7 +23,7 @@ from typing import (
 )
 
 from .object_stream import ObjectStream
-from .util_ast import as_literal, scan_for_metadata
+from .util_ast import as_literal, function_call, scan_for_metadata
 from .util_types import (
     get_args,
     get_method_and_class,
@@ -624,7 +624,20 @@ def remap_by_types(
             if hasattr(r, "query_ast"):
 
                 def add_md(md: ast.arg):
-                    self._stream = self._stream.MetaData(ast.literal_eval(md))
+                    try:
+                        value = ast.literal_eval(md)
+                    except ValueError:
+                        # A dictionary that holds something that is no python literal (a path,
+                        # a range ...): it is on the nested stream as an ast already, and goes
+                        # on to this stream as it is.
+                        self._stream = self._stream.clone_with_new_ast(
+                            function_call(
+                                "MetaData", [self._stream.query_ast, copy.deepcopy(md)]
+                            ),
+                            self._stream.item_type,
+                        )
+                    else:
+                        self._stream = self._stream.MetaData(value)
 
                 scan_for_metadata(r.query_ast, add_md)
                 call_node = fixup_ast_from_modifications(r.query_ast, call_node)
